@@ -644,6 +644,8 @@ PROPS["C01"] = {
         "Lace.C01.parse_tokens_image",
         "Lace.C01.assemble_image_render",
         "Lace.C01.layout_irrelevant_render",
+        "Lace.C01.lexKind_label_iff",
+        "Lace.C01.fullOk_of_lt",
     ],
     "compare": cmp_default,
     "classify": enc_classify,
@@ -671,7 +673,7 @@ PROPS["C01"] = {
     ],
     "assumptions": [
         "labels are valid label names whatever the stack flag (I13); a label marks a statement of at least one word",
-        "a program of exactly 65,535 words followed by .break / .orig is outside the generated set",
+        "a program of exactly 65,535 words followed by .break / .orig / a label is outside Spec.render's range (Prog.renderable / fullOk): lace answers `too many`, Spec.Prog.image accepts",
     ],
 }
 
